@@ -7,7 +7,7 @@
      AbstractPriorModel.add_assertion                                        -> attached
      AbstractPriorModel.check_assertions                                     -> check_all / check_level
      AbstractPriorModel.instance_for_arguments: this level's assertions, then
-       Model / Collection / CompoundPrior._instance_for_arguments with `ignore_assertions`
+       Model / Collection / CompoundPrior / ModifiedPrior._instance_for_arguments with `ignore_assertions`
        handed down to every child level                                     -> status (recursive), instantiate
      AbstractPriorModel.instance_from_vector                                 -> run
      AbstractPriorModel.instance_from_path_arguments                         -> run_paths
@@ -39,6 +39,7 @@ Inductive cmpop := CLt | CLe | CGt | CGe.
 Section Gate.
   Variable V : Type.
   Variable bin : binop -> V -> V -> V.
+  Variable un : unop -> V -> V.
   Variable bin_ok : binop -> V -> V -> bool.   (* false: Python raises ZeroDivisionError *)
   Variable ltb leb : V -> V -> bool.
   Variable of_bool : bool -> V.                (* a Python bool compared like a number *)
@@ -58,6 +59,16 @@ Section Gate.
             end
         | Fit => Fit
         | Err e => Err e
+        end
+    | NUn o _ c =>
+        (* ModifiedPrior: op(self.prior.instance_for_arguments(..)); a float operand has no such method *)
+        match c with
+        | NConst _ => Err EAttr
+        | _ => match operand args c with
+               | Ok a => Ok (un o a)
+               | Fit => Fit
+               | Err e => Err e
+               end
         end
     | _ => Err EType
     end.
@@ -108,7 +119,7 @@ Section Gate.
 
   (* ---------- how the comparison operators build assertion objects ---------- *)
   Definition arith_like (n : node V) : bool :=
-    match n with NPrior _ | NBin _ _ _ _ _ => true | _ => false end.
+    match n with NPrior _ | NBin _ _ _ _ _ | NUn _ _ _ => true | _ => false end.
 
   Definition cmp_consts (op : cmpop) (a b : V) : bool :=
     match op with CLt => ltb a b | CLe => leb a b | CGt => ltb b a | CGe => leb b a end.
@@ -217,10 +228,10 @@ Section Gate.
     if negb (Nat.eqb (List.length vec) (prior_count V n)) then VLength
     else
       let args := zip_args V (ordered_ids V n) vec in
-      if ignore then VOk (inst V bin args n)
+      if ignore then VOk (inst V bin un args n)
       else if negb (within lims args) then VLimit
       else if negb (all_hold args asserts) then VAssert
-      else VOk (inst V bin args n).
+      else VOk (inst V bin un args n).
 
   (* ---------- the code: assertions live on levels and are checked level by level ---------- *)
   Definition levels := list (path * list assertion).
@@ -267,9 +278,16 @@ Section Gate.
       if forallb (fun m => has_arg (snd (snd m))) ms then Ok tt else Err EKey.
 
     Definition arith_status (o : binop) (l r : node V) : res unit :=
-      match inst V bin args l, inst V bin args r with
+      match inst V bin un args l, inst V bin un args r with
       | IV a, IV b => if bin_ok o a b then Ok tt else Err EZero
       | _, _ => Err EType
+      end.
+
+    (* ModifiedPrior._instance_for_arguments: the operator applied to the operand's instance *)
+    Definition un_status (c : node V) : res unit :=
+      match c with
+      | NConst _ => Err EAttr
+      | _ => match inst V bin un args c with IV _ => Ok tt | _ => Err EType end
       end.
 
     Definition prior_status (q : nat) : res unit :=
@@ -277,7 +295,7 @@ Section Gate.
 
     (* nodes that are AbstractPriorModels: they have their own `_assertions` and instance_for_arguments *)
     Definition is_level (n : node V) : bool :=
-      match n with NBin _ _ _ _ _ | NModel _ _ _ | NColl _ => true | _ => false end.
+      match n with NBin _ _ _ _ _ | NUn _ _ _ | NModel _ _ _ | NColl _ => true | _ => false end.
     Definition is_tuple (n : node V) : bool := match n with NTuple _ => true | _ => false end.
 
     (* the first thing that goes wrong, in the order of the code; Ok tt: the instance is constructed *)
@@ -291,6 +309,10 @@ Section Gate.
           seq (if ignore then Ok tt else check_level (here lv))
               (seq (status ignore (below ln lv) l)
                    (seq (status ignore (below rn lv) r) (arith_status o l r)))
+      | NUn _ nm c =>
+          (* ModifiedPrior: instance_for_arguments -> check_assertions; the operand's instance_for_arguments; op *)
+          seq (if ignore then Ok tt else check_level (here lv))
+              (seq (status ignore (below nm lv) c) (un_status c))
       | NModel _ _ attrs =>
           (* Model: check_assertions; tuple priors; prior models (Model, Collection, CompoundPrior) in
              __dict__ order; direct priors *)
@@ -312,7 +334,7 @@ Section Gate.
 
     Definition instantiate (ignore : bool) (lv : levels) (n : node V) : res (ival V) :=
       match status ignore lv n with
-      | Ok _ => Ok (inst V bin args n)
+      | Ok _ => Ok (inst V bin un args n)
       | Fit => Fit
       | Err e => Err e
       end.
@@ -349,7 +371,7 @@ Definition fverdict := verdict float.
 
 (* Python float division raises ZeroDivisionError exactly when the divisor compares equal to 0.0 *)
 Definition fbin_ok (o : binop) (a b : float) : bool :=
-  match o with ODiv => negb (PrimFloat.eqb b PrimFloat.zero) | _ => true end.
+  match o with ODiv | OFloorDiv | OMod => negb (PrimFloat.eqb b PrimFloat.zero) | _ => true end.
 Definition fof_bool (b : bool) : float := if b then PrimFloat.one else PrimFloat.zero.
 
 Definition err_eqb (a b : err) : bool :=
@@ -368,7 +390,7 @@ Definition verdict_eqb (a b : fverdict) : bool :=
 
 Definition binop_eqb (a b : binop) : bool :=
   match a, b with
-  | OAdd, OAdd | OSub, OSub | OMul, OMul | ODiv, ODiv => true
+  | OAdd, OAdd | OSub, OSub | OMul, OMul | ODiv, ODiv | OFloorDiv, OFloorDiv | OMod, OMod => true
   | _, _ => false
   end.
 
@@ -385,6 +407,8 @@ Fixpoint node_eqb (a b : node float) : bool :=
          end) xs ys
   | NBin o ln rn l r, NBin o' ln' rn' l' r' =>
       binop_eqb o o' && String.eqb ln ln' && String.eqb rn rn' && node_eqb l l' && node_eqb r r'
+  | NUn o nm c, NUn o' nm' c' =>
+      match o, o' with UNeg, UNeg | UAbs, UAbs => true | _, _ => false end && String.eqb nm nm' && node_eqb c c'
   | NModel c ct xs, NModel d dt ys =>
       String.eqb c d && list_eqb String.eqb ct dt &&
       (fix go (xs ys : list (string * node float)) : bool :=
@@ -445,8 +469,8 @@ Record case := {
 
 Definition fdenote := denote float PrimFloat.ltb PrimFloat.leb.
 Definition fdenote_legacy := denote_legacy float PrimFloat.ltb PrimFloat.leb.
-Definition frun := run float fbin fbin_ok PrimFloat.ltb PrimFloat.leb fof_bool.
-Definition frun_paths := run_paths float fbin fbin_ok PrimFloat.ltb PrimFloat.leb fof_bool.
+Definition frun := run float fbin funop fbin_ok PrimFloat.ltb PrimFloat.leb fof_bool.
+Definition frun_paths := run_paths float fbin funop fbin_ok PrimFloat.ltb PrimFloat.leb fof_bool.
 
 Definition ends_eqb (a b : option (node float * node float)) : bool :=
   match a, b with
